@@ -271,9 +271,28 @@ def fingerprint_tabulation(ctx, report, pk, fp, fr, hk, spec):
     except (Unsupported, Raised) as e:
         report.add('C16.R2', fp.construct + '@tabulation', 'the fingerprint code left the subset the tabulation understands: %s' % e)
     report.count('C16.R2')
-    src = ast.unparse(hk.node)
-    if 'base64.b64encode(self.key_bytes)' not in src.replace('standard_b64encode', 'b64encode'):
-        report.add('C16.R2', hk.construct + '@known_hosts', 'known_hosts is not base64(key_bytes)')
+    # the known_hosts entry: host_key_asdict evaluated on a model key (helpers and properties of the class are followed)
+    decided = False
+    try:
+        for blob in (b'\x00\x00\x00\x0bssh-ed25519\x00\x00\x00\x20' + bytes(range(32)), b'\x00\x00\x00\x07ssh-rsa' + b'\xfb\xff' * 135):
+            me = Obj(key_bytes=blob, host_key_algorithm=Obj(value=Obj(key_type=Obj(value='host key'))),
+                     public_key=Obj(_asdict=lambda: collections.OrderedDict([('key_size', 256)])))
+            me._repo_class = pk
+            got = Evaluator({'self': me}, hook, names).function(hk.node)
+            if not isinstance(got, dict) or 'known_hosts' not in got:
+                raise Unsupported('host_key_asdict gives no known_hosts entry')
+            decided = True
+            if got['known_hosts'] != base64.b64encode(blob).decode('ascii'):
+                report.add('C16.R2', hk.construct + '@known_hosts', 'known_hosts of a %d byte blob is %r..., base64(key_bytes) is %r...' % (
+                    len(blob), str(got['known_hosts'])[:24], base64.b64encode(blob).decode('ascii')[:24]))
+                break
+    except (Unsupported, Raised, AttributeError, TypeError):
+        decided = False
+    if not decided:
+        src = ast.unparse(hk.node)
+        if 'base64.b64encode(self.key_bytes)' not in src.replace('standard_b64encode', 'b64encode'):
+            report.add('C16.R2', hk.construct + '@known_hosts', 'known_hosts is not base64(key_bytes)')
+    report.sample({'rule': 'C16.R2', 'known_hosts': 'evaluated' if decided else 'read from the source'})
 
 
 def hex_rendering(ctx, report, rule='C16.R1'):
